@@ -287,8 +287,9 @@ pub enum Kind {
     Overwrite { seed: u32, at: u16, value: u64, form: u8 },
     /// transaction-shaped: the `field`-th count/length field replaced (tx decoders only; others fall back to Overwrite)
     Subst { seed: u32, field: u16, value: u64, form: u8 },
-    /// `depth` nested conditionals (script-shaped input), optionally unclosed
-    Nest { depth: u32, closed: bool },
+    /// `depth` nested conditionals (script-shaped input), optionally unclosed; `via_else`: each block is nested in
+    /// the ELSE branch of the previous one (IF ELSE IF ELSE … ENDIF ENDIF) instead of its IF branch
+    Nest { depth: u32, closed: bool, #[serde(default)] via_else: bool },
     /// valid encoding repeated / extended with a long tail
     Extend { seed: u32, tail: u32, byte: u8 },
     /// text = Base58Check (valid checksum) of an arbitrary payload, incl. the empty one: reaches the code behind
@@ -367,8 +368,8 @@ pub fn input_of(dec: &Decoder, kind: &Kind) -> (Vec<u8>, String) {
                 input_of(dec, &Kind::Overwrite { seed: *seed, at: *field, value: *value, form: *form })
             }
         }
-        Kind::Nest { depth, closed } => {
-            let mut v: Vec<u8> = std::iter::repeat(0x63).take(*depth as usize).collect();
+        Kind::Nest { depth, closed, via_else } => {
+            let mut v: Vec<u8> = if *via_else { std::iter::repeat([0x63u8, 0x67]).take(*depth as usize).flatten().collect() } else { std::iter::repeat(0x63).take(*depth as usize).collect() };
             v.push(0x51);
             if *closed {
                 v.extend(std::iter::repeat(0x68).take(*depth as usize));
@@ -486,9 +487,11 @@ impl Property for C09 {
                 };
                 for depth in depths {
                     for closed in [true, false] {
-                        idx += 1;
-                        if idx % nshards == shard && !f(Case { dec: di as u8, kind: Kind::Nest { depth, closed } }) {
-                            return;
+                        for via_else in [false, true] {
+                            idx += 1;
+                            if idx % nshards == shard && !f(Case { dec: di as u8, kind: Kind::Nest { depth, closed, via_else } }) {
+                                return;
+                            }
                         }
                     }
                 }
@@ -519,7 +522,7 @@ impl Property for C09 {
             20 => (any::<u32>(), prop::collection::vec(mutation(), 1..4)).prop_map(|(seed, muts)| Kind::Mutated { seed, muts }),
             14 => (any::<u32>(), any::<u16>(), big.clone(), 0u8..4).prop_map(|(seed, at, value, form)| Kind::Overwrite { seed, at, value, form }),
             8 => (any::<u32>(), any::<u16>(), big, 0u8..4).prop_map(|(seed, field, value, form)| Kind::Subst { seed, field, value, form }),
-            1 => (1u32..2000, any::<bool>()).prop_map(|(depth, closed)| Kind::Nest { depth, closed }),
+            1 => (1u32..2000, any::<bool>(), any::<bool>()).prop_map(|(depth, closed, via_else)| Kind::Nest { depth, closed, via_else }),
             2 => (any::<u32>(), prop_oneof![3 => 0u32..100, 1 => 100u32..70_000], any::<u8>()).prop_map(|(seed, tail, byte)| Kind::Extend { seed, tail, byte }),
             6 => prop::collection::vec(any::<u8>(), 0..90).prop_map(Kind::B58Check),
             4 => (any::<u32>(), prop::collection::vec(mutation(), 1..3)).prop_map(|(seed, muts)| Kind::B58Rewrap { seed, muts }),
